@@ -526,7 +526,23 @@ class IMAPClient:
                 # Read until b'\r\n'. Trim off the '\r\n'. If the message is
                 # not of 0 length then append it to our incremental buffer.
                 #
-                msg = await self.reader.readuntil(self.LINE_TERMINATOR)
+                try:
+                    msg = await self.reader.readuntil(self.LINE_TERMINATOR)
+                except asyncio.LimitOverrunError:
+                    # No line terminator within the limit of our reader.
+                    # We can not tell where this command ends (the line may
+                    # announce a literal), so tell the client why and
+                    # disconnect.
+                    #
+                    logger.warning(
+                        "%s: line exceeds the maximum line length, "
+                        "disconnecting",
+                        self.name,
+                    )
+                    await self.push(
+                        b"* BAD line exceeds maximum allowed length\r\n"
+                    )
+                    break
                 msg = msg.rstrip()
                 if msg:
                     self.ibuffer.append(msg)
